@@ -27,6 +27,8 @@ type c07Case struct {
 	Item     *model.Node    `json:"item,omitempty"`  // described item (long inputs), framed as a message
 	Depth    int            `json:"depth,omitempty"` // chain of 1-element lists around Core
 	Core     model.HexBytes `json:"core,omitempty"`  // innermost item bytes of a chain
+	Sib      model.HexBytes `json:"sib,omitempty"`   // one encoded leaf item that every level of the chain holds beside its nested list
+	SibPos   int            `json:"sib_pos,omitempty"` // 0 before the nested list, 1 after it, 2 both
 	Truncate int            `json:"truncate,omitempty"`
 	Patch    bool           `json:"patch,omitempty"` // rewrite the outer length to match
 	// History: inputs decoded by the same worker process right before this one (the decoder must not carry
@@ -50,10 +52,23 @@ func (c c07Case) input() ([]byte, error) {
 		in = b
 	case c.Depth > 0 || c.Gen == "chain":
 		in = append(in, c07Header...)
+		var tail []byte
 		for i := 0; i < c.Depth; i++ {
-			in = append(in, 0x01, 0x01)
+			switch {
+			case len(c.Sib) == 0:
+				in = append(in, 0x01, 0x01)
+			case c.SibPos == 0:
+				in = append(append(in, 0x01, 0x02), c.Sib...)
+			case c.SibPos == 1:
+				in = append(in, 0x01, 0x02)
+				tail = append(tail, c.Sib...)
+			default:
+				in = append(append(in, 0x01, 0x03), c.Sib...)
+				tail = append(tail, c.Sib...)
+			}
 		}
 		in = append(in, c.Core...)
+		in = append(in, tail...)
 		in = patchLen(in)
 	default:
 		in = append([]byte(nil), c.Bytes...)
@@ -250,6 +265,15 @@ func genC07(t *rapid.T) c07Case {
 			stats.exclude("nesting-depth-cap-binds")
 		}
 		core := rapid.SampledFrom([][]byte{{0x01, 0x00}, {0x41, 0x01, 0x61}, {0x01, 0xFF}, {0xA5, 0x01, 0x05}, {}}).Draw(t, "core")
+		if rapid.Bool().Draw(t, "withSiblings") {
+			// every level also holds a small leaf item beside the nested list (a well-formed, realistic shape)
+			sib := rapid.SampledFrom([][]byte{{0x21, 0x00}, {0xA5, 0x01, 0x07}, {0x25, 0x01, 0x01}, {0x91, 0x04, 0x3F, 0x80, 0, 0}, {0x61, 0x08, 0, 0, 0, 0, 0, 0, 0, 9},
+				{0x41, 0x01, 0x61}, {0x01, 0x00}, {0xB1, 0x00}, {0x69, 0x02, 0xFF, 0xFE}}).Draw(t, "sibling")
+			if len(core) == 0 {
+				core = []byte{0x01, 0x00}
+			}
+			return c07Case{Gen: "chain-with-leaves", Depth: d, Core: core, Sib: sib, SibPos: rapid.IntRange(0, 2).Draw(t, "sibPos")}
+		}
 		return c07Case{Gen: "chain", Depth: d, Core: core}
 	case 10:
 		// nested lists that each declare as many children as the remaining bytes allow (the largest count
